@@ -1,3 +1,153 @@
-import Econf.Layered
+import Econf.Lemmas.LayeredLemmas
+import Econf.Props.C03
+
+/-!
+  C01 — layered lookup yields the vendor < /run < /etc precedence for every tree.
+
+  The statement is split along the sentence of the property:
+  * main file only from the highest-priority layer that has one, an empty file or a link to
+    /dev/null counting as present: `C01_main_skip_absent`, `C01_main_first_present`;
+  * drop-ins layer by layer in ascending priority (`C01_layer_order`), inside a directory in
+    byte-wise name order and only those carrying the suffix (`C01_dir_order`);
+  * later files override earlier ones key by key, a drop-in is ignored completely when a later
+    consulted file has its name: `C01_lookup`, `C01_masked_ignored`;
+  * no file at all: file-not-found (`C01_nofile`); no name at all: refused (`C01_null_refused`).
+  Known finding F14: the first file of the list is never masked (`mergeHistory` takes it
+  unconditionally), which is what the implementation does — see known_findings.json.
+-/
+
+set_option linter.unusedSimpArgs false
+
 namespace Econf
+
+/-- the files that take part in the merge after the first one: those not masked by a later file -/
+def unmaskedList : List KeyFile → List KeyFile
+  | [] => []
+  | k :: ks => if masked k ks then unmaskedList ks else k :: unmaskedList ks
+
+theorem mergeRest_eq_foldl (acc : KeyFile) (ks : List KeyFile) :
+    mergeRest acc ks = (unmaskedList ks).foldl mergeFiles acc := by
+  induction ks generalizing acc with
+  | nil => rfl
+  | cons k ks ih =>
+    simp only [mergeRest, unmaskedList]
+    split
+    · exact ih acc
+    · simp only [List.foldl_cons]; exact ih _
+
+/-- the last file of a list that defines (section, key) -/
+def lastDefining (fs : List KeyFile) (g k : Str) : Option KeyFile := fs.reverse.find? (fun f => defines f.entries g k)
+
+theorem lookup_foldl_merge (acc : KeyFile) (fs : List KeyFile) (g k : Str) :
+    lookupTxt (fs.foldl mergeFiles acc).entries g k =
+      match lastDefining fs g k with
+      | some f => lookupTxt f.entries g k
+      | none => lookupTxt acc.entries g k := by
+  induction fs generalizing acc with
+  | nil => rfl
+  | cons x xs ih =>
+    simp only [List.foldl_cons]
+    rw [ih (mergeFiles acc x)]
+    unfold lastDefining
+    simp only [List.reverse_cons, List.find?_append]
+    cases hx : xs.reverse.find? (fun f => defines f.entries g k) with
+    | some f => simp
+    | none =>
+      simp only [Option.none_or, List.find?_cons, List.find?_nil]
+      have hm : (mergeFiles acc x).entries = mergeEntries acc.entries x.entries := rfl
+      rw [hm, C03_lookup]
+      cases hd : defines x.entries g k <;> simp
+
+/-- C01: the merged result of a history.  For every (section, key): the value comes from the last
+    consulted file (after the first) that is not masked and defines the key — later files override
+    earlier ones key by key — and from the first file otherwise. -/
+theorem C01_lookup (first : KeyFile) (rest : List KeyFile) (g k : Str) :
+    lookupTxt (mergeRest first rest).entries g k =
+      match lastDefining (unmaskedList rest) g k with
+      | some f => lookupTxt f.entries g k
+      | none => lookupTxt first.entries g k := by
+  rw [mergeRest_eq_foldl]; exact lookup_foldl_merge _ _ _ _
+
+/-- a drop-in is ignored completely when a later consulted file has its name -/
+theorem C01_masked_ignored (acc k : KeyFile) (ks : List KeyFile) (h : masked k ks = true) :
+    mergeRest acc (k :: ks) = mergeRest acc ks := by
+  simp [mergeRest, h]
+
+
+/-- absent main-file candidates are passed over without any effect -/
+theorem C01_main_skip_absent (ctx : RdCtx) (join python : Bool) (delim comment : Str) (s : RdState) (pre rest : List Str)
+    (h : ∀ q ∈ pre, ctx.fs.lstat q = none) :
+    readFirst ctx join python delim comment s (pre ++ rest) = readFirst ctx join python delim comment s rest := by
+  induction pre with
+  | nil => rfl
+  | cons q qs ih =>
+    have hq : readFileCB ctx s join python q delim comment = (s, .error .nofile) := by
+      unfold readFileCB; simp only [h q List.mem_cons_self]
+    simp only [List.cons_append, readFirst, hq]
+    exact ih (fun x hx => h x (List.mem_cons_of_mem _ hx))
+
+/-- the first candidate that can be read is the main file; the lower layers are not looked at -/
+theorem C01_main_first_present (ctx : RdCtx) (join python : Bool) (delim comment : Str) (s : RdState) (p : Str) (rest : List Str)
+    (kf : KeyFile) (h : (readFileCB ctx s join python p delim comment).2 = .ok kf) :
+    readFirst ctx join python delim comment s (p :: rest) = ((readFileCB ctx s join python p delim comment).1, .ok (some kf)) := by
+  simp only [readFirst]
+  rw [pair_eta _ _ h]
+
+/-- the candidates are the layers from the highest priority down -/
+theorem C01_main_candidates (dirs : List Str) (d : Str) (name sfx : Str) :
+    mainCandidates (dirs ++ [d]) name sfx = (d ++ SLASH :: name ++ sfx) :: mainCandidates dirs name sfx := by
+  simp [mainCandidates]
+
+/-- drop-ins: layer by layer in ascending priority, per layer the drop-in directories in their order -/
+theorem C01_layer_order (fs : FS) (d : Str) (ds : List Str) (name sfx : Str) (postfixes : List Str) :
+    dropinPaths fs (d :: ds) name sfx postfixes =
+      postfixes.flatMap (fun q => dropinsOfDir fs (d ++ SLASH :: name ++ q) sfx) ++ dropinPaths fs ds name sfx postfixes := by
+  simp [dropinPaths]
+
+/-- inside a directory: byte-wise name order; exactly the entries (with `.` and `..`) that are
+    strictly longer than the suffix and end with it -/
+theorem C01_dir_order (fs : FS) (dir sfx : Str) (names : List Str) (h : fs.scandir dir = some names) :
+    dropinsOfDir fs dir sfx = (names.filter (fun n => sfx.length < n.length && endsWith n sfx)).map (fun n => dir ++ SLASH :: n) ∧
+    names.Pairwise strLe := by
+  refine ⟨by simp [dropinsOfDir, h], ?_⟩
+  unfold FS.scandir at h
+  split at h
+  · simp only [Option.some.injEq] at h
+    rw [← h]; exact sortNames_sorted _
+  · cases h
+
+/-- when no file at all exists the call reports file-not-found -/
+theorem C01_nofile (ctx : RdCtx) (s : RdState) (dirs : List Str) (name : Str) (suffix : Option Str) (delim comment : Str)
+    (join python : Bool) (confDirs : List Str)
+    (hmain : ∀ q ∈ mainCandidates dirs name (dotSuffix (some name) suffix), ctx.fs.lstat q = none)
+    (hdrop : dropinPaths ctx.fs dirs name (dotSuffix (some name) suffix)
+       (if confDirs.isEmpty then [dotSuffix (some name) suffix ++ [0x2e, 0x64]] else confDirs) = []) :
+    (readHistory ctx s dirs (some name) suffix (some delim) comment join python confDirs).2 = .error (.nofile, true) := by
+  unfold readHistory
+  simp only [hdrop, readSeq]
+  have hm := C01_main_skip_absent ctx join python delim comment s _ [] hmain
+  simp only [List.append_nil, readFirst] at hm
+  by_cases hne : name.isEmpty = true
+  · simp [hne]
+  · simp [hne, hm]
+
+/-- both project and configuration name absent: refused with an error code, nothing is read -/
+theorem C01_null_refused (ctx : RdCtx) (s : RdState) (slot : Option KeyFile) (usrSubdir suffix : Option Str) (delim : Option Str) (comment : Str) :
+    (readConfig ctx s slot none usrSubdir none suffix delim comment).2.1 ≠ .success ∧
+    (readConfig ctx s slot none usrSubdir none suffix delim comment).1 = s := by
+  unfold readConfig prepareConfig readConfigCore readHistory
+  cases delim <;> simp
+
+/-- non-vacuity: three layers, /etc has an empty main file that silences the vendor one; the drop-in
+    `9-a` sorts after `10-a` byte-wise and overrides it -/
+example :
+    let fs : FS := ((((({} : FS).add [0x2f,0x75,0x2f,0x63] (.file [0x6b,0x3d,0x75,0x0a] 0 0)).add
+      [0x2f,0x65,0x2f,0x63] (.file [] 0 0)).add
+      [0x2f,0x75,0x2f,0x63,0x2e,0x64,0x2f,0x31,0x30,0x2d,0x61] (.file [0x6b,0x3d,0x31,0x30,0x0a] 0 0)).add
+      [0x2f,0x75,0x2f,0x63,0x2e,0x64,0x2f,0x39,0x2d,0x61] (.file [0x6b,0x3d,0x39,0x0a] 0 0))
+    let r := readConfigCore { fs := fs, cb := none } { g := {} } { parseDirs := [[0x2f,0x75], [0x2f,0x65]] } (some [0x63]) none (some [0x3d]) [0x23]
+    (match r.2 with
+     | .ok m => lookupTxt m.entries NONE [0x6b] == some [0x39]
+     | .error _ => false) = true := by decide
+
 end Econf
